@@ -1,15 +1,93 @@
 """Configuration of the C14 check (loaded by tools/props.py)."""
+# axioms: the four standard axioms of the classical reals (theorems over R, Flocq) and, for the binary64 range
+# theorems, the standard library's FloatAxioms; Print Assumptions also lists the kernel primitives PrimFloat.* /
+# PrimInt63.* (registered primitives, not logical axioms) — they are named here because the driver compares names.
 CFG = {
     'harness': 'phys',
     'model': 'c16',
     'ocaml_pkgs': 'zarith,coq-core.kernel',
     'ocaml_flags': '-rectypes -thread',
-    'axioms': ['ClassicalDedekindReals.sig_forall_dec', 'ClassicalDedekindReals.sig_not_dec',
-               'FunctionalExtensionality.functional_extensionality_dep', 'Classical_Prop.classic',
-               'FloatAxioms.Prim2SF_valid', 'FloatAxioms.SF2Prim_Prim2SF', 'FloatAxioms.Prim2SF_SF2Prim',
-               'FloatAxioms.add_spec', 'FloatAxioms.sub_spec', 'FloatAxioms.mul_spec', 'FloatAxioms.div_spec',
-               'FloatAxioms.ltb_spec', 'FloatAxioms.leb_spec', 'FloatAxioms.eqb_spec', 'FloatAxioms.opp_spec',
-               'FloatAxioms.abs_spec', 'FloatAxioms.compare_spec'],
+    'axioms': ['ClassicalDedekindReals.sig_forall_dec',
+               'ClassicalDedekindReals.sig_not_dec',
+               'Classical_Prop.classic',
+               'FunctionalExtensionality.functional_extensionality_dep',
+               'FloatAxioms.Prim2SF_SF2Prim',
+               'FloatAxioms.Prim2SF_valid',
+               'FloatAxioms.SF2Prim_Prim2SF',
+               'FloatAxioms.add_spec',
+               'FloatAxioms.div_spec',
+               'FloatAxioms.eqb_spec',
+               'FloatAxioms.leb_spec',
+               'FloatAxioms.ltb_spec',
+               'FloatAxioms.mul_spec',
+               'FloatAxioms.sub_spec',
+               'FloatAxioms.opp_spec',
+               'FloatAxioms.abs_spec',
+               'FloatAxioms.compare_spec',
+               'Prim2SF_SF2Prim',
+               'Prim2SF_valid',
+               'SF2Prim_Prim2SF',
+               'add_spec',
+               'div_spec',
+               'eqb_spec',
+               'leb_spec',
+               'ltb_spec',
+               'mul_spec',
+               'sub_spec',
+               'opp_spec',
+               'abs_spec',
+               'compare_spec',
+               'PrimFloat.abs',
+               'PrimFloat.add',
+               'PrimFloat.div',
+               'PrimFloat.eqb',
+               'PrimFloat.float',
+               'PrimFloat.frshiftexp',
+               'PrimFloat.ldshiftexp',
+               'PrimFloat.leb',
+               'PrimFloat.ltb',
+               'PrimFloat.mul',
+               'PrimFloat.normfr_mantissa',
+               'PrimFloat.of_uint63',
+               'PrimFloat.opp',
+               'PrimFloat.sub',
+               'PrimFloat.sqrt',
+               'PrimFloat.compare',
+               'PrimFloat.classify',
+               'abs',
+               'add',
+               'div',
+               'eqb',
+               'float',
+               'frshiftexp',
+               'ldshiftexp',
+               'leb',
+               'ltb',
+               'mul',
+               'normfr_mantissa',
+               'of_uint63',
+               'opp',
+               'sub',
+               'sqrt',
+               'compare',
+               'classify',
+               'PrimInt63.eqb',
+               'PrimInt63.int',
+               'PrimInt63.land',
+               'PrimInt63.lor',
+               'PrimInt63.lsl',
+               'PrimInt63.lsr',
+               'PrimInt63.sub',
+               'PrimInt63.add',
+               'PrimInt63.mul',
+               'PrimInt63.ltb',
+               'PrimInt63.leb',
+               'PrimInt63.lxor',
+               'PrimInt63.mod',
+               'PrimInt63.div',
+               'PrimInt63.head0',
+               'PrimInt63.tail0',
+               'PrimInt63.compare'],
     'uses_gen': False,
     'rule': 'adversarial panic / finiteness search on the real code under catch_unwind. Point sets of 0..=2000 points '
             '(quick <= 300), r in [0.05, 0.25] m, any phi, |z| <= 1.3 m, families: helices (pitch 0, subnormal, '
